@@ -15,4 +15,8 @@ theorem canonical_guard_present :
     (OLP.Gen.sessionRule.filter (fun r => r.thenDo == "canonical-guard")).map (fun r => r.fn) =
     ["txChecker", "txDeliverer"] := by decide
 
+/-- the ABCI entry points the shell model ports are unchanged since the port was validated -/
+theorem entry_points_source_pinned :
+    OLP.Expect.pinnedOf OLP.Gen.pinned (pinnedShell.map (fun r => r.fn)) = pinnedShell := by decide
+
 end OLP.Props.C05.Facts
